@@ -6,7 +6,9 @@
 use super::fam21::{slot_of, slot_to, slot_wf, tc_post, Slot, Snap, EMPTY};
 use super::*;
 
-pub(crate) const S2: usize = 2;
+/// one state per (opaque) machine suffices at this level: the code under test reads a machine's
+/// states only for `has_limit` of the CURRENT state when a completion did not change the state
+pub(crate) const S2: usize = 1;
 pub(crate) const MAXM: usize = 3;
 
 // ---- ghost state (reset by the harness, advanced by the contract stub in O(1) per machine step)
